@@ -24,6 +24,8 @@ vars == <<init, e0, L, R, F, post, st, why>>
 AllDevs == {"fused_matmul_transpose_flags_not_swapped", "fused_matmul_noperm_keyerror"}
 NoDevs == {}
 R23 == {2, 3}
+\* quick tier: rank 4 only for the plain MatMul with none / last2 / last2b operands
+Quick4 == 4 \in Ranks /\ ~Big
 R234 == {2, 3, 4}
 R2 == {2}
 R3 == {3}
@@ -82,8 +84,12 @@ ApplyPost(v, ps) ==
 (* initial terms: the instances harness/c19.py builds (build_matmul) *)
 Dims == IF Big THEN {<<2, 3, 4>>, <<2, 2, 2>>, <<3, 3, 3>>} ELSE {<<2, 3, 4>>, <<2, 2, 2>>}
 Batch(r) == IF r = 2 THEN <<>> ELSE IF r = 3 THEN <<2>> ELSE <<2, 3>>
-TKinds == {"none", "last2", "noperm", "rot", "batch"}
-PermOf(kind, n) == CASE kind = "last2" -> SwapLast2(n) [] kind = "rot" -> Rot(n) [] kind = "batch" -> BatchPerm(n) [] OTHER -> <<>>
+\* "last2b" (rank 4 only): the last two axes swapped AND the two batch axes swapped, [1, 0, 3, 2] - not a plain
+\* transposition of the matrix dimensions, so no transA/transB flag can stand for it
+SwapBoth4 == <<1, 0, 3, 2>>
+TKinds == {"none", "last2", "noperm", "rot", "batch", "last2b"}
+PermOf(kind, n) == CASE kind = "last2" -> SwapLast2(n) [] kind = "rot" -> Rot(n) [] kind = "batch" -> BatchPerm(n)
+                     [] kind = "last2b" -> SwapBoth4 [] OTHER -> <<>>
 TrOf(kind, n) == IF kind = "none" THEN NoTr ELSE IF kind = "noperm" THEN [t |-> "noperm", perm |-> <<>>]
                  ELSE [t |-> "perm", perm |-> PermOf(kind, n)]
 \* source shape such that the Transpose yields `base`
@@ -95,6 +101,8 @@ SrcShape(base, tr) ==
 Inits == {c \in [rank : Ranks, dims : Dims, ta : TKinds, tb : TKinds, div : {"none", "scalar", "vec1", "vec"},
                  tout : {"none", "noperm", "last2"}, divfirst : BOOLEAN] :
             /\ (c.rank = 2 => "batch" \notin {c.ta, c.tb})
+            /\ (c.rank # 4 => "last2b" \notin {c.ta, c.tb})
+            /\ (c.rank = 4 /\ Quick4 => (c.div = "none" /\ c.tout = "none" /\ c.divfirst /\ {c.ta, c.tb} \subseteq {"none", "last2", "last2b"}))
             /\ ~(c.div = "vec" /\ ~c.divfirst) /\ ~(c.div = "none" /\ ~c.divfirst) /\ ~(c.tout = "none" /\ ~c.divfirst)
             /\ (Big \/ c.rank = 2 \/ c.dims = <<2, 3, 4>>)
             /\ (c.rank < 4 \/ (c.div \in {"none", "scalar"} /\ c.tout # "noperm"))}
